@@ -29,6 +29,18 @@ NONMUTATING_METHODS = {
 }
 
 
+MUTATING_ALGOS = {
+    'make_heap', 'push_heap', 'pop_heap', 'sort_heap', 'sort', 'stable_sort', 'partial_sort', 'nth_element', 'reverse', 'rotate', 'shuffle',
+    'random_shuffle', 'swap', 'iter_swap', 'swap_ranges', 'fill', 'fill_n', 'generate', 'generate_n', 'iota', 'remove', 'remove_if', 'unique',
+    'partition', 'stable_partition', 'replace', 'replace_if', 'transform', 'copy', 'copy_n', 'copy_backward', 'move', 'move_backward',
+    'inplace_merge', 'next_permutation', 'prev_permutation', 'exchange', 'uninitialized_fill', 'for_each',
+}
+# 'move', 'copy', 'transform', 'for_each' are listed because with a range of the saved object as an argument they may write to it or leave it
+# moved-from; std::move(x) of a single object is a cast and is recognised by having one argument
+READONLY_STD = {'begin', 'end', 'cbegin', 'cend', 'rbegin', 'rend', 'apply', 'get', 'forward', 'addressof', 'as_const', 'size', 'data', 'empty',
+                'distance', 'next', 'prev', 'visit', 'holds_alternative', 'get_if', 'ref', 'cref', 'tie', 'forward_as_tuple', 'invoke'}
+
+
 def gname(g):
     qn = g.get('qn') or g['q']
     if g.get('local') and '|' in qn:
@@ -222,6 +234,68 @@ def run(prog, rep):
                 rep.finding('R19.2', '%s|%s.%s' % (fn.pq, vparams[n['d']], mname), fn.loc(n),
                             'save instantiation %s calls non-const %s() on the object being saved (%s): concurrent saves of a shared '
                             'const source would race' % (fn.pq, mname, vparams[n['d']]), func=fn.id)
+        # aliases of the saved object (auto& base = GetBaseContainer(cont)), then: writes through an accessor (cont[i] = x, *cont.begin() = x),
+        # mutating standard algorithms over its range, and hand-over by non-const reference to a callee outside the repository
+        al = dict(vparams)
+        changed = True
+        while changed:
+            changed = False
+            for n in live_walk(fn):
+                if n['k'] != 'DeclStmt':
+                    continue
+                for d in n.get('decls', []):
+                    if d.get('isref') and d['d'] not in al and not fn.tu['types'][d['t']].startswith('const '):
+                        if any(x['k'] == 'DeclRefExpr' and x.get('d') in al for c in n.get('c', []) for x in fn.walk(c)):
+                            al[d['d']] = '%s (alias of %s)' % (d['n'], sorted(vparams.values())[0])
+                            changed = True
+
+        def base_ref(e):
+            while e is not None:
+                if e['k'] == 'DeclRefExpr':
+                    return e
+                if e['k'] in ('ImplicitCastExpr', 'ParenExpr', 'MemberExpr', 'ArraySubscriptExpr', 'UnaryOperator', 'CXXMemberCallExpr',
+                              'CXXOperatorCallExpr', 'MaterializeTemporaryExpr', 'CXXBindTemporaryExpr') and e.get('c'):
+                    cs = e['c']
+                    # operator calls carry the callee reference first
+                    e = cs[1] if e['k'] == 'CXXOperatorCallExpr' and len(cs) > 1 else cs[0]
+                    continue
+                return None
+            return None
+
+        for n in live_walk(fn):
+            if n['k'] in ('BinaryOperator', 'CompoundAssignOperator') and (n.get('op') == '=' or n['k'] == 'CompoundAssignOperator') and n.get('c'):
+                lhs = n['c'][0]
+                b = base_ref(lhs)
+                if b is not None and b.get('d') in al and strip(lhs) is not b:
+                    bad = True
+                    rep.finding('R19.2', '%s|write through %s' % (fn.pq, al[b['d']].split(' ')[0]), fn.loc(n),
+                                'save instantiation %s assigns through an accessor of the object being saved (%s)' % (fn.pq, al[b['d']]), func=fn.id)
+            elif n['k'] == 'CallExpr':
+                cal = fn.callee(n)
+                if cal is None or cal.get('repo'):
+                    continue
+                q = (cal.get('q') or '').split('<')[0]
+                if not q.startswith('std::'):
+                    continue
+                touched = [x for a in n.get('c', [])[1:] for x in fn.walk(a) if x['k'] == 'DeclRefExpr' and x.get('d') in al]
+                if not touched:
+                    continue
+                nm = cal.get('n')
+                if nm in MUTATING_ALGOS:
+                    bad = True
+                    rep.finding('R19.2', '%s|std::%s over %s' % (fn.pq, nm, al[touched[0]['d']].split(' ')[0]), fn.loc(n),
+                                'save instantiation %s runs std::%s over the object being saved (%s): the source of a save is const and may be '
+                                'shared by several threads - even a rearrangement that ends in the same order writes to it meanwhile'
+                                % (fn.pq, nm, al[touched[0]['d']]), func=fn.id)
+                elif nm not in READONLY_STD:
+                    for x in touched:
+                        kind, info = classify_use(fn, x)
+                        if kind in ('escape', 'alias', 'addr') and isinstance(info, tuple) and info[0] is n:
+                            bad = True
+                            rep.finding('R19.2', '%s|%s handed to std::%s' % (fn.pq, al[x['d']].split(' ')[0], nm), fn.loc(n),
+                                        'save instantiation %s hands the object being saved (%s) by non-const reference to std::%s, which is not in the '
+                                        'table of read-only helpers' % (fn.pq, al[x['d']], nm), func=fn.id)
+                            break
         if not bad:
             rep.ok('R19.2', fn.pq + '|' + fn.sym.get('targs', '')[:80], sample={'function': fn.pq, 'at': fn.loc(), 'value_params': sorted(vparams.values())},
                    nontrivial=bool(fn.body and len(fn.body.get('c', ())) > 0))
